@@ -8,9 +8,10 @@ from common import *
 LEVEL = "model_checking"
 
 
-def run(res, tier):
+def run(res, tier, only=None):
+    """only: restrict the reported clauses (C04 reuses the grid for K0)"""
     vdrive = build_harness()
-    cov = res.coverage
+    cov = res.coverage if only is None else {}
     with Scratch("verif-socks-") as tmp:
         copy_specs(tmp)
         g = run_tlc(tmp, "L4Socks5Grid.tla", f"L4Socks5Grid_{tier}.cfg", timeout=1800)
@@ -42,8 +43,13 @@ def run(res, tier):
             traces[t["id"]] = t
         for b in bad:
             t = traces[b["id"]]
-            sig = "socks:cmd%d:" % t["sc"]["cmd"] + ("authreq" if t["cfg"]["creds"] else "noauth") + ":" + t["sc"]["auth"]
-            res.violation(sig, "; ".join(b["clauses"]) + f" (trace {b['id']}: cfg {t['cfg']} script {t['sc']})", t)
+            cl = [x for x in b["clauses"] if only is None or x.split()[0] in only]
+            if not cl:
+                continue
+            sig = "socks:cmd%d:" % t["sc"]["cmd"] + ("authreq" if t["cfg"]["creds"] else "noauth") + ":" + t["sc"]["auth"] + ":" + "+".join(sorted(x.split()[0] for x in cl))
+            res.violation(sig, "; ".join(cl) + f" (trace {b['id']}: cfg {t['cfg']} script {t['sc']})", t)
+        if only is not None:
+            return dict(cases=len(g["vout"]))
     res.assumptions += ["the client side is a scripted RFC 1928/1929 byte sequence over net.Pipe; outbound effect = a TCP connection accepted by the harness's loopback target, or a success reply to ASSOCIATE (an unannounced listener would be invisible)",
                         "only the 'only' direction is judged: an allowed request that is refused (e.g. BIND, unsupported by the library) is not a violation"]
 
